@@ -12,7 +12,7 @@ import json
 import os
 
 from ..envkinds import EnvKinds
-from ..model import call_name, own_nodes, unparse
+from ..model import call_name, own_nodes, self_assigns, unparse
 from ..pathcond import path_info
 from ..paths import enumerate_paths, path_calls
 from .C03 import build_scope
@@ -76,6 +76,54 @@ ORDER = [
     ('_populate_type_attributes', '_validate_doc_refs', 'doc refs name fields'),
     ('_populate_type_attributes', '_validate_annotations', 'redactor legality needs field types'),
 ]
+
+
+def parser_state(pm, ctx, rule):
+    """Per-file parser state: whatever a p_* action accumulates on the factory
+    and parse() hands out with its result is emptied by get_parser(), and the
+    frontend asks for a fresh parser for every file."""
+    ctx.rule(rule, 'parser accumulators that reach parse()\'s result are reset for every file')
+    pf = pm.cls(PARSER.rsplit('.', 1)[0] + '.ParserFactory') if not PARSER.endswith(
+        'ParserFactory') else pm.cls(PARSER)
+    acc = {}
+    for m in pf.methods.values():
+        for c in own_nodes(m.node):
+            if isinstance(c, ast.Call) and isinstance(c.func, ast.Attribute) and \
+                    c.func.attr in ('append', 'extend', 'insert') and \
+                    isinstance(c.func.value, ast.Attribute) and \
+                    isinstance(c.func.value.value, ast.Name) and c.func.value.value.id == 'self':
+                acc.setdefault(c.func.value.attr, []).append(m.name)
+    parse = pf.methods['parse']
+    handed_out = set()
+    for n in own_nodes(parse.node):
+        if isinstance(n, ast.Attribute) and isinstance(n.ctx, ast.Load) and \
+                isinstance(n.value, ast.Name) and n.value.id == 'self' and n.attr in acc:
+            par = getattr(n, '_parent', None)
+            receiver = isinstance(par, ast.Attribute) and par.value is n and \
+                par.attr in ('append', 'extend', 'insert')
+            if not receiver:
+                handed_out.add(n.attr)
+    gp = pf.methods['get_parser']
+    resets = self_assigns(gp.node)
+    for a in sorted(handed_out):
+        ctx.check(rule, resets.get('self.' + a) in ('[]', 'list()'),
+                  'get_parser empties self.%s (filled by %s, handed out by parse)' % (
+                      a, ', '.join(sorted(set(acc[a]))[:3])), gp.loc,
+                  msg='ParserFactory.get_parser no longer empties self.%s: what one file '
+                      'accumulated is appended to the definitions of every later file' % a,
+                  key='%s|%s|reset:%s' % (rule, gp.qualname, a))
+    ctx.floor(rule, len(handed_out), 1, 'parser accumulators handed out by parse()')
+    fe = pm.func('stone.frontend.frontend.specs_to_ir')
+    loops = [l for l in own_nodes(fe.node) if isinstance(l, ast.For) and
+             unparse(l.iter) == 'specs']
+    ok = False
+    if len(loops) == 1:
+        order = [call_name(c) for c in own_nodes(loops[0]) if isinstance(c, ast.Call) and
+                 call_name(c) in ('get_parser', 'parse')]
+        ok = order[:2] == ['get_parser', 'parse'] and order.count('parse') == 1
+    ctx.check(rule, ok, 'specs_to_ir takes a reset parser for every spec file', fe.loc,
+              msg='specs_to_ir no longer calls get_parser() before each parse()',
+              key='%s|%s|per-file' % (rule, fe.qualname))
 
 
 def enforcement_sites(pm):
@@ -446,5 +494,27 @@ def run(pm, ctx):
         ctx.check('C01-R6', ok, '%s refuses anything that is not a known annotation kind' % f.short,
                   f.loc, msg='%s lost its refusal of unknown annotation objects' % f.short,
                   key='C01-R6|%s|else' % f.qualname)
+    # no class test on an environment value is vacuous: a test no stored kind can satisfy
+    # guards a refusal that never happens (e.g. isinstance(obj, Void) where environments
+    # hold the *class* Void)
+    n_tests = 0
+    for f in pm.funcs_in('stone.frontend.ir_generator'):
+        pi = path_info(f.node)
+        for t in own_nodes(f.node):
+            if not (isinstance(t, ast.Call) and call_name(t) == 'isinstance' and len(t.args) == 2):
+                continue
+            ks = ek.kinds_at(f, t, t.args[0])
+            if ks is None or not ks:
+                continue
+            n_tests += 1
+            sat = ek._filter(ks, f.module, t, True, unparse(t.args[0]))
+            ctx.check('C01-R6', bool(sat), '%s: %s can hold for a stored kind' % (
+                f.short, unparse(t)), '%s:%d' % (f.module.relpath, t.lineno),
+                msg='%s tests %s, but an environment never holds such an instance (kinds here: '
+                    '%s): the branch it guards -- typically a refusal -- is dead'
+                    % (f.short, unparse(t), sorted(ks)),
+                key='C01-R6|%s|vacuous|%s' % (f.qualname, unparse(t)))
+    ctx.floor('C01-R6', n_tests, 8, 'isinstance tests on environment values')
+    parser_state(pm, ctx, 'C01-R8')
     ctx.import_rules(pm, 'C02', {'C02-R5'}, 'C01-R7',
                      'field listings that legality checks iterate are complete (shared with C02-R5)')
